@@ -300,6 +300,7 @@ def check(prog: Program, run: Run) -> None:
     # ---------------------------------------------------------- R3
     _responses(prog, run)
     _matches(prog, run)
+    _path_split(prog, run)
 
 
 def _accumulation(run: Run, f: FuncInfo, cfg: CFG, cand: ast.For, pat: ast.For, par: ast.For,
@@ -473,7 +474,17 @@ def _responses(prog: Program, run: Run) -> None:
                    call_name(x) in ("extend", "append", "chain") or isinstance(x, ast.BinOp))
     text = ast.unparse(fn)
     for what in ("positive_responses", "negative_responses", "global_negative_responses"):
-        if what in text:
+        # each list is a candidate on its own: not the fallback of another one (`a or b`,
+        # `a if a else b`)
+        alt = [x for x in walk_no_nested(fn) if isinstance(x, (ast.BoolOp, ast.IfExp)) and any(
+            isinstance(y, ast.Attribute) and y.attr == what for y in ast.walk(x))]
+        if what in text and alt:
+            run.violation(R, "VariantMatcher._ident_response_matches", f"conditional-{what}",
+                          f"`{ast.unparse(alt[0])[:80]}`: the {what} are only tried as an "
+                          "alternative of another list; an ECU that answers with a response "
+                          "from the list left out is not recognised",
+                          f"{f.module.rel}:{alt[0].lineno}", ast.unparse(alt[0])[:80])
+        elif what in text:
             run.ok(R, "_ident_response_matches", f"{what} are candidates for decoding", f.loc)
         else:
             run.violation(R, "VariantMatcher._ident_response_matches", f"missing-{what}",
@@ -563,6 +574,28 @@ def _responses(prog: Program, run: Run) -> None:
     if good:
         run.ok(R, "_ident_response_matches", "every response object is tried; only a matching "
                "one ends the search", f"{f.module.rel}:{lp.lineno}")
+
+
+def _path_split(prog: Program, run: Run) -> None:
+    """OUT-PARAM-IF-SNPATHREF is a dotted path of any depth: it is split at every dot."""
+    R = "C14.R3"
+    f = prog.func("MatchingParameter.matches")
+    sp = [x for x in walk_no_nested(f.node) if isinstance(x, ast.Call) and call_name(x) in (
+        "split", "rsplit", "partition", "rpartition") and "snpathref" in ast.unparse(x.func)]
+    if not sp:
+        raise AnalysisError("MatchingParameter.matches: the SNPATHREF is not split")
+    for x in sp:
+        full = call_name(x) == "split" and len(x.args) == 1 and not x.keywords and isinstance(
+            x.args[0], ast.Constant) and x.args[0].value == "."
+        if full:
+            run.ok(R, "MatchingParameter.matches", "the path is split at every dot",
+                   f"{f.module.rel}:{x.lineno}")
+        else:
+            run.violation(R, "MatchingParameter.matches", "path-split",
+                          f"`{ast.unparse(x)}` does not split the path at every dot: a value "
+                          "nested more than one structure deep is never found, the candidate "
+                          "that should match is skipped", f"{f.module.rel}:{x.lineno}",
+                          ast.unparse(x))
 
 
 def _matches(prog: Program, run: Run) -> None:
